@@ -23,7 +23,7 @@ RULE = (
     "distinct_nontrivial = distinct expressions reported linear with non-empty pos|neg."
 )
 ASSUMPTIONS = ["domains: x in [-2,2], y in [0,3], z in [-3,-1], r in {-1,-1/2,..,2}; params p in [-3,-1], q in [0,2], k in [1,3]"]
-BOUNDS = {"quick": dict(n=480, per=8), "thorough": dict(n=12000, per=12)}
+BOUNDS = {"quick": dict(n=480, per=8), "thorough": dict(n=48000, per=12)}
 
 WORLD = {
     "name": "c17",
